@@ -140,6 +140,44 @@ func c05Numbered(c c05Case) *imp.World {
 	return w
 }
 
+// c05Many: n paths p<i>/f plus math/rand, crypto/rand; variant bits: 1 = reverse order,
+// 2 = prefix, 4 = ImportNames table for every third path.
+func c05Many(c c05Case) *imp.World {
+	names := map[string]string{}
+	var paths []string
+	for i := 0; i < c.Extra; i++ {
+		p := fmt.Sprintf("p%d/f", i)
+		paths = append(paths, p)
+		if i%3 == 0 {
+			names[p] = "f"
+		}
+	}
+	paths = append(paths, "math/rand", "crypto/rand")
+	w := imp.New("NewFile", "", imp.DefaultTrueName(names))
+	if c.Perm&4 != 0 {
+		var hinted []string
+		for p := range names {
+			hinted = append(hinted, p)
+		}
+		sort.Strings(hinted)
+		w.Names(hinted...)
+	}
+	if c.Perm&2 != 0 {
+		w.Prefix("pkg")
+	}
+	for round := 0; round < 2; round++ {
+		for i := range paths {
+			k := i
+			if c.Perm&1 != 0 {
+				k = len(paths) - 1 - i
+			}
+			w.Ref(paths[k], 0)
+		}
+	}
+	w.Log = w.Log[:3] // the full operation list is too long to print
+	return w
+}
+
 // the character classes guessAlias distinguishes
 var c05Classes = []string{"a", "B", "1", "/", ".", "-", "_", "é", "٣", "İ"}
 
@@ -248,6 +286,16 @@ func runC05(r *ev.Recorder) {
 		}
 	}
 
+	// (v) many imports in one File: N paths with the same last element (plus two std packages called
+	// rand), referenced forwards and backwards, each twice, prefix on/off, with and without a
+	// name table of the same size
+	for _, n := range []int{12, 40, 130, 400} {
+		for variant := 0; variant < 8; variant++ {
+			c := c05Case{Kind: "many", Extra: n, Perm: variant}
+			judge(c05Many(c), c, "c05:many-imports")
+		}
+	}
+
 	// (ii)
 	n := int64(len(c05Classes))
 	var total int64
@@ -314,6 +362,8 @@ func replayC05(raw json.RawMessage) (bool, string) {
 		w = c05PathWorld(c)
 	case "numbered":
 		w = c05Numbered(c)
+	case "many":
+		w = c05Many(c)
 	case "family":
 		fam := familyByName(c05Families, c.Family)
 		if fam == nil {
